@@ -52,7 +52,7 @@ static const double Q16 = 1.0 / 65536.0;
 
 struct Stats {
 	uint64_t calls, parts, cut, trim, both, shared, hidden, capped, join_ok, join_ref, join_spur, cxx_parts, poly_parts, poly_fail;
-	uint64_t hist_reset, pair_parts, pair_cut_and_trim2, pair_hidden_by_second, pair_poly_parts, pair_hist;
+	uint64_t pair_frac_checked, pair_frac_undefined, pair_frac_differ, hist_reset, pair_parts, pair_cut_and_trim2, pair_hidden_by_second, pair_poly_parts, pair_hist;
 	uint64_t nontrivial;
 };
 
@@ -473,7 +473,7 @@ static void long_body(Run &r, Stats &st, const LongJob &j, Ctx &x)
 // (n = 5: y over the four letters below, in1, at-max, above),
 // x against [0,1] in dimension 0, y against [-1,1] in dimension 1, merged by linepart::array::apply().
 // Oracle for merged parts: raw >= 1, sum raw = n, marks need points, a value is a proper drawn element (not a cut/trim
-// end) of exactly one part iff it is in range in BOTH dimensions.  Fractions of merged parts are not judged.
+// end) of exactly one part iff it is in range in BOTH dimensions; a stored cut/trim fraction is within 2^-16 of the largest per-dimension crossing of its segment.
 static bool check_parts2(const double *x, const double *y, size_t n, const linepart *ps, size_t np, Verdict &o, Stats *st, std::vector<uint8_t> &cover)
 {
 	const Rng &g0 = RNG[0], &g1 = RNG[1];
@@ -486,6 +486,31 @@ static bool check_parts2(const double *x, const double *y, size_t n, const linep
 		if (p.raw > n - pos || p.usr > n - pos) { o.kind = "overrun"; o.cls = p.raw > n - pos ? "raw>available" : "usr>available"; o.detail = fmt("part %zu at %zu is %s, %zu values remain", k, pos, part_str(p).c_str(), n - pos); return false; }
 		unsigned c = p._cut ? 1 : 0, t = p._trim ? 1 : 0;
 		if (p.usr < c + t) { o.kind = "flag-without-points"; o.cls = c ? "cut" : "trim"; o.detail = fmt("part %zu at %zu %s has a cut/trim mark but no drawn point to carry it", k, pos, part_str(p).c_str()); return false; }
+		// stored fractions of a merged part: the drawn end point must be inside every range and on the boundary of at least one,
+		// i.e. the decoded value is the largest of the per-dimension crossings of that segment, each computed from the raw values
+		// (a dimension whose end value is in range does not constrain; undefined when a dimension is out of range at both ends)
+		for (int end = 0; end < 2; ++end) {
+			if (!(end ? t : c) || p.usr < 2) continue;
+			size_t o_i = end ? pos + p.usr - 1 : pos, n_i = end ? o_i - 1 : o_i + 1;
+			long double want = 0; bool defined = true, any = false;
+			const double *vv[2] = {x, y}; const Rng *gg[2] = {&g0, &g1};
+			for (int d = 0; d < 2; ++d) {
+				if (inr(*gg[d], vv[d][o_i])) continue;
+				if (!inr(*gg[d], vv[d][n_i])) { defined = false; break; }
+				long double f = crossing(*gg[d], vv[d][o_i], vv[d][n_i]); any = true;
+				if (f > want) want = f;
+			}
+			if (!defined) { if (st) ++st->pair_frac_undefined; continue; }
+			const char *which = end ? "trim" : "cut";
+			if (!any) { o.kind = std::string(which) + "-misplaced"; o.cls = "endpoint-in-range,merged"; o.detail = fmt("part %zu at %zu %s: the %s end value[%zu]=(%.17g,%.17g) is in range in both dimensions", k, pos, part_str(p).c_str(), which, o_i, x[o_i], y[o_i]); return false; }
+			long double dec = mpt::mpt_linepart_real(end ? p._trim : p._cut), err = dec > want ? dec - want : want - dec;
+			if (err > (long double) Q16 * (1 + 1e-9L)) {
+				o.kind = std::string(which) + "-fraction"; o.cls = dec > want ? "merged,too-large" : "merged,too-small";
+				o.detail = fmt("part %zu at %zu %s: %s code decodes to %.9Lf but the segment (%.17g,%.17g) -> (%.17g,%.17g) enters the last range at fraction %.9Lf", k, pos, part_str(p).c_str(), which, dec, x[o_i], y[o_i], x[n_i], y[n_i], want);
+				return false;
+			}
+			if (st) ++st->pair_frac_checked;
+		}
 		for (size_t i = pos + c; i < pos + p.usr - t; ++i) {
 			if (inr(g0, x[i]) && inr(g1, y[i])) { if (cover[i] < 3) ++cover[i]; continue; }
 			o.kind = "outrange-drawn"; o.cls = i == pos ? "first" : (i == pos + p.usr - 1 ? "last" : "interior");
@@ -766,6 +791,7 @@ static void flush_stats(Run &r, const Stats &st)
 	r.count("join_merged", st.join_ok); r.count("join_refused", st.join_ref); r.count("join_spurious_refusals(not flagged)", st.join_spur);
 	r.count("array_history_reset_with_usr!=raw", st.hist_reset); r.count("pair_parts", st.pair_parts); r.count("pair_parts_cut_and_trim_usr=2", st.pair_cut_and_trim2);
 	r.count("pair_inputs_hidden_only_by_second_dimension", st.pair_hidden_by_second); r.count("pair_polyline_parts", st.pair_poly_parts); r.count("pair_history_reset_with_usr!=raw", st.pair_hist);
+	r.count("pair_fractions_checked", st.pair_frac_checked); r.count("pair_fractions_undefined(not judged)", st.pair_frac_undefined);
 	r.count("cxx_array_parts", st.cxx_parts); r.count("polyline_parts", st.poly_parts); r.count("polyline_nothing_visible", st.poly_fail);
 }
 void mc_explore(Run &r, const std::string &job)
@@ -773,7 +799,7 @@ void mc_explore(Run &r, const std::string &job)
 	Stats st; memset(&st, 0, sizeof st);
 	for (const char *k : {"nontrivial", "parts_cut_only", "parts_trim_only", "parts_cut_and_trim", "parts_shared_endpoint(usr=raw+1)", "parts_with_hidden_values(usr<raw)",
 	                      "parts_at_limit(raw=65535)", "join_merged", "join_refused", "cxx_array_parts", "polyline_parts",
-	                      "array_history_reset_with_usr!=raw", "pair_parts", "pair_parts_cut_and_trim_usr=2", "pair_inputs_hidden_only_by_second_dimension", "pair_polyline_parts", "pair_history_reset_with_usr!=raw"}) r.require(k);
+	                      "array_history_reset_with_usr!=raw", "pair_parts", "pair_parts_cut_and_trim_usr=2", "pair_inputs_hidden_only_by_second_dimension", "pair_polyline_parts", "pair_history_reset_with_usr!=raw", "pair_fractions_checked"}) r.require(k);
 	if (job == "codes") { r.additive = true; r.enter(Vec(), "code"); code_job(r, st); ++r.executions; }
 	else dfs(r, [&](Ctx &x) { body(r, st, job, x); });
 	flush_stats(r, st);
